@@ -95,6 +95,15 @@ FAMILIES = {
                         variants='orders', bases=1),
     # five day slots, one split at every position, at most four non-empty cells (room for sale / repurchase / second sale)
     'split5_q': dict(cfg=dict(dayset=1, splits=(1, 3), maxsplits=1, maxcells=4, timings=BOTH), variants='none', bases=1),
+    # two splits / unsplits (2-for-1, 1-for-2) in one ledger of at most three trades: the ratio between a sale and its
+    # 30-day purchase is the PRODUCT of what lies between them
+    'split2_q': dict(cfg=dict(dayset=1, splits=(1, 3), maxsplits=2, maxcells=3, timings=BOTH), variants='none', bases=1),
+    # two securities, even quantities, every fill-splitting rendering (half fills adjacent, separated by another line,
+    # interleaved A B A B): same-day sale lines of one security with the other security's lines between them
+    'two_fills_q': dict(cfg=dict(secs='SecSeqAB', dayset=7, buy=(0, 2), sell=(0, 2)), variants='fills', bases=1),
+    # a cost event on the day of a purchase / sale, under every line order (does the day's purchase take part?)
+    'events_order_q': dict(cfg=dict(dayset=3, buy=(0, 1, 2), sell=(0, 1), events=(1, 2), maxevents=1, grid=2, maxcells=4),
+                           variants='orders', bases=1),
     # cost events and splits together
     'events_split_q': dict(cfg=dict(dayset=3, buy=(0, 1, 2), sell=(0, 1), events=(1, 2), maxevents=1, grid=2,
                                     splits=(1,), maxsplits=1, maxcells=4, timings=BOTH), variants='none', bases=1, obs=True),
